@@ -462,6 +462,7 @@ def is_stringy(v):
 str_cat = z3.Function("str_cat", StrSort, StrSort, StrSort)
 str_dec = z3.Function("str_dec", z3.IntSort(), StrSort)
 str_chr = z3.Function("str_chr", z3.IntSort(), StrSort)
+str_real = z3.Function("str_real", z3.RealSort(), StrSort)
 
 
 def rope_term(r):
@@ -476,6 +477,8 @@ def rope_term(r):
             return str_dec(p.n)
         if isinstance(p, Chr):
             return str_chr(p.cp)
+        if isinstance(p, Fmt):
+            return str_real(p.v)
         if z3.is_expr(p):
             return p
         raise TypeError(f"piece {p!r} has no term form")
